@@ -2,7 +2,7 @@
 """Mutation smoke test: tools/mutants.py <ID> [tier]
 Reads harness/<ID>/mutants.txt; each non-comment line:  <repo-relative file> ::: <old text> ::: <new text> [::: equivalent]
 Builds a mutated copy of the file (first occurrence of <old text> replaced), runs the check with the copy injected
-by overlay (never touching /repo) and expects exit 1 (VIOLATION). Lines marked 'equivalent' are expected to survive."""
+by overlay (never touching /repo) and expects exit 1 (VIOLATION). Lines marked 'equivalent' are expected to survive; 'occ=N' mutates the N-th occurrence of <old text>."""
 import sys, os, subprocess, tempfile
 V = os.path.dirname(os.path.dirname(os.path.abspath(__file__)))
 pid = sys.argv[1]; tier = sys.argv[2] if len(sys.argv) > 2 else "quick"
@@ -13,7 +13,10 @@ for line in open(spec):
     if not line.strip() or line.startswith("#"): continue
     parts = [p.strip() for p in line.split(":::")]
     rel, old, new = parts[0], parts[1], parts[2]
-    equiv = len(parts) > 3 and parts[3] == "equivalent"
+    equiv = "equivalent" in parts[3:]
+    occ = 1
+    for x in parts[3:]:
+        if x.startswith("occ="): occ = int(x[4:])
     src = open(os.path.join("/repo", rel)).read()
     old_u = old.encode().decode("unicode_escape"); new_u = new.encode().decode("unicode_escape")
     if old_u not in src:
@@ -21,7 +24,12 @@ for line in open(spec):
     n += 1
     d = tempfile.mkdtemp(prefix="vxmut")
     f = os.path.join(d, os.path.basename(rel))
-    open(f, "w").write(src.replace(old_u, new_u, 1))
+    pos = -1
+    for _ in range(occ):
+        pos = src.find(old_u, pos + 1)
+    if pos < 0:
+        print(f"MUTANT-SPEC-STALE {rel}: occurrence {occ} not found: {old!r}"); ok = False; continue
+    open(f, "w").write(src[:pos] + new_u + src[pos + len(old_u):])
     files = sorted(os.path.join(V, "harness", pid, x) for x in os.listdir(os.path.join(V, "harness", pid)) if x.endswith(".go"))
     inc = os.path.join(V, "harness", pid, "include.txt")
     if os.path.exists(inc):
